@@ -126,6 +126,35 @@ fn c10_alloc_guards() {
     }
 }
 
+/// the same for the code-point representation (haystack of `char`)
+static BIG_CHARS: [char; 40_000] = ['a'; 40_000];
+
+#[kani::proof]
+fn c10_alloc_guards_char() {
+    let h: usize = kani::any();
+    let n: usize = kani::any();
+    kani::assume(h <= 40_000 && n >= 1 && n <= h);
+    let hay = &BIG_CHARS[..h];
+    let mut slab = MatrixSlab::new();
+    let slab_bytes = size_of::<MatcherData>();
+    let base = slab.0.as_ptr() as usize;
+    let must_refuse = !alloc_guards(h, n);
+    match slab.alloc(hay, n) {
+        None => {
+            kani::cover!(must_refuse);
+        }
+        Some(view) => {
+            assert!(!must_refuse, "alloc refuses when haystack*needle > 100Ki, haystack > u16::MAX or needle > 2048");
+            assert!(view.haystack.len() == h && view.bonus.len() == h);
+            assert!(view.row_offs.len() == n && view.current_row.len() == h + 1 - n);
+            let m = view.matrix_cells.as_ptr() as usize - base;
+            assert!(m + view.matrix_cells.len() <= slab_bytes, "the &mut [MatrixCell] handed out lies inside the slab");
+            assert!(view.matrix_cells.len() >= (h + 1 - n) * n);
+            kani::cover!(h > 1000);
+        }
+    }
+}
+
 /// canary: must FAIL
 #[kani::proof]
 fn c10_layout_canary() {
